@@ -24,7 +24,7 @@ THREE = ["msubsup", "munderover"]
 ONE_INFERRED = ["msqrt", "menclose", "mstyle", "mpadded", "mphantom", "merror", "mtd"]
 
 EMPTY_KINDS = ["mrow0", "none", "mi0", "mn0", "mo0", "mtext0", "mtext_sp", "mtext_nbsp", "mspace", "mphantom", "mstyle0", "mpadded0", "mrow_mrow0",
-               "mrow_sp", "mstyle_sp", "mo_sp", "mphantom0", "semantics_empty", "strut", "strut0", "mspace0", "mspace_neg"]
+               "mrow_sp", "mstyle_sp", "mo_sp", "mphantom0", "semantics_empty", "strut", "strut0", "mspace0", "mspace_neg", "mtext_zw", "mtext_zw2", "mi_zw"]
 
 _DICT_OPS = None
 
@@ -62,6 +62,10 @@ def empty_like(kind):
         "strut0": lambda: N("mspace", width="0", height="2ex"),
         "mspace0": lambda: N("mspace"),
         "mspace_neg": lambda: N("mspace", width="-0.2em"),
+        # tokens made of zero-width characters only (word joiner, zero-width space / no-break space: what editors and converters leave behind)
+        "mtext_zw": lambda: mtext("\u200b"),
+        "mtext_zw2": lambda: mtext("\u2060\ufeff"),
+        "mi_zw": lambda: mi("\u200b"),
     }[kind]()
 
 
@@ -159,6 +163,18 @@ class Degenerate:
         self.count += len(kids)
         return kids
 
+    def phantom_base_script(self, depth):
+        """a script whose base is built the way TeX packages build an 'empty' base (mhchem: nested rows around a zero-width mpadded that
+        starts with a phantom letter) -- here with 0-2 visible tokens after the phantom, which are content and must stay"""
+        r = self.rng
+        inner = [N("mphantom", [mi("A")])] + [self.token() for _ in range(r.choice([0, 1, 1, 2]))]
+        pad = N("mpadded", inner, width=r.choice(["0", "0", "0em", "+0em"]))
+        base = mrow(mrow(pad)) if r.random() < 0.7 else mrow(pad)
+        tag = r.choice(["msub", "msup", "msubsup"])
+        kids = [base] + [self.child(depth + 1, True) for _ in range(2 if tag == "msubsup" else 1)]
+        self.count += 4 + len(inner)
+        return mrow(mi(r.choice(["H", "x", "Na"])), N(tag, kids)) if r.random() < 0.5 else N(tag, kids)
+
     def fenced_then_script(self, depth):
         """a fenced group written as sibling tokens, directly followed by a script with an empty base (TeX '(x+1){}^2', '[a,b]{}_0'), last in
         its row or followed by a 2-D element: the script takes the whole group as its base"""
@@ -214,6 +230,8 @@ class Degenerate:
         d = depth + 1
         if k < 0.05:
             x = r.random()
+            if x < 0.12:
+                return self.phantom_base_script(d)
             return mrow(*(self.special_run(d) if x < 0.6 else self.fenced_then_script(d) if x < 0.8 else self.spelled_run(d)))
         if k < 0.25:
             n = r.choice([0, 1, 1, 2, 3, 3, 4, 5])
